@@ -438,7 +438,7 @@ func buildShipped(c *drv.Ctx, sh []shipped) (*lab.Lab, error) {
 			src, genErr := lab.Generate(s.Text, v, filepath.Base(s.File)+".go")
 			c.Stats.Eval()
 			if genErr != "" {
-				c.AddViolation(drv.Violation{Property: "C17", Kind: "bootstrap-chain", What: fmt.Sprintf("shipped grammar grammars/%s does not generate under -strict with %q: %s", s.Dir, v.Flags(), genErr), Case: map[string]string{"part": "strict", "grammar": s.Dir, "options": v.Flags()}})
+				c.AddViolation(drv.Violation{Property: c.ID, Kind: "bootstrap-chain", What: fmt.Sprintf("shipped grammar grammars/%s does not generate under -strict with %q: %s", s.Dir, v.Flags(), genErr), Case: map[string]string{"part": "strict", "grammar": s.Dir, "options": v.Flags()}})
 				return nil, nil
 			}
 			files := map[string][]byte{"parser.peg.go": packageClause.ReplaceAll(src, []byte("package "+name))}
@@ -448,13 +448,32 @@ func buildShipped(c *drv.Ctx, sh []shipped) (*lab.Lab, error) {
 			raws = append(raws, lab.RawPackage{Name: name, Struct: s.Struct, Files: files})
 		}
 	}
-	l, err := lab.BuildRaw(c, raws, lab.Options{})
+	// the native fuzz target of the thorough tier lives in the same module
+	type seed struct {
+		G  int
+		In string
+	}
+	var names []string
+	var seeds []seed
+	for gi, s := range sh {
+		names = append(names, s.Dir)
+		for _, in := range s.Samples {
+			if len(in) <= 1500 && len(seeds) < 200 {
+				seeds = append(seeds, seed{gi, strconv.Quote(in)})
+			}
+		}
+	}
+	var fb bytes.Buffer
+	if err := template.Must(template.New("f").Parse(lab.FuzzShippedTemplate)).Execute(&fb, map[string]any{"Grammars": names, "Seeds": seeds}); err != nil {
+		return nil, err
+	}
+	l, err := lab.BuildRaw(c, raws, lab.Options{ExtraFiles: map[string][]byte{"fuzz_test.go": fb.Bytes()}})
 	if err != nil {
 		return nil, err
 	}
 	for _, n := range l.Order {
 		if p := l.Pkgs[n]; p.BuildErr != "" {
-			c.AddViolation(drv.Violation{Property: "C17", Kind: "bootstrap-chain", What: fmt.Sprintf("the parser generated for shipped grammar package %s does not compile: %s", n, tail(p.BuildErr, 800)), Case: map[string]string{"part": "shipped-build", "package": n}})
+			c.AddViolation(drv.Violation{Property: c.ID, Kind: "bootstrap-chain", What: fmt.Sprintf("the parser generated for shipped grammar package %s does not compile: %s", n, tail(p.BuildErr, 800)), Case: map[string]string{"part": "shipped-build", "package": n}})
 			l.Close()
 			return nil, nil
 		}
@@ -571,6 +590,7 @@ func c17Shipped(c *drv.Ctx, sh []shipped, n int) error {
 			}
 		}
 		if what := judgeShipped(obs[i]); what != "" && len(c.Violations) == 0 {
+			_ = i
 			// shrink the input with the same binary
 			cur := cs
 			for round := 0; round < 12; round++ {
@@ -596,7 +616,36 @@ func c17Shipped(c *drv.Ctx, sh []shipped, n int) error {
 			c.AddViolation(drv.Violation{Property: "C17", Kind: "shipped-input", What: fmt.Sprintf("grammars/%s on input %q: %s", cur.Grammar, string(cur.Input), what), Case: cur})
 		}
 	}
+	if c.Thorough() && len(c.Violations) == 0 {
+		shippedNativeFuzz(c, l, sh, 150*time.Second)
+	}
 	return nil
+}
+
+// shippedNativeFuzz runs the coverage-guided campaign over the shipped grammars' parsers.
+func shippedNativeFuzz(c *drv.Ctx, l *lab.Lab, sh []shipped, d time.Duration) {
+	res, err := runNativeFuzz(c, l.Dir, "FuzzShipped", d)
+	if err != nil {
+		c.Notes = append(c.Notes, "native fuzzing of the shipped parsers did not run: "+firstLine(err.Error()))
+		return
+	}
+	c.Stats.Extra["native_fuzz_execs"] = res.Execs
+	c.Stats.Extra["native_fuzz_seconds"] = res.Seconds
+	c.Stats.Evaluations += res.Execs
+	if !res.Failed {
+		return
+	}
+	if res.Baseline || len(res.Args) < 2 {
+		c.AddViolation(drv.Violation{Property: c.ID, Kind: "shipped-input", What: "a seed input of the shipped parsers fails in the fuzz target:\n" + tail(res.Output, 1500), Case: shippedCase{}})
+		return
+	}
+	gi := int(res.Args[0][0]) % len(sh)
+	cs := shippedCase{Grammar: sh[gi].Dir, Input: proto.QStr(res.Args[1])}
+	what := judgeShipped(runShippedInputs(c, l, []shippedCase{cs})[0])
+	if what == "" {
+		what = "found by go test -fuzz (does not reproduce through the worker): " + tail(res.Output, 600)
+	}
+	c.AddViolation(drv.Violation{Property: c.ID, Kind: "shipped-input", What: fmt.Sprintf("grammars/%s on input %q: %s", cs.Grammar, string(cs.Input), what), Case: cs})
 }
 
 func c17Run(c *drv.Ctx) error {
